@@ -89,7 +89,8 @@ func DefaultStringType() *stringType {
 
 func NewStringType(rng *IntegerType, s string) px.Type {
 	if s == `` {
-		if rng == nil || *rng == *IntegerTypePositive {
+		if rng == nil || *rng == *IntegerTypePositive || *rng == *integerTypeDefault {
+			// String[Integer]: a length is never negative, the unbounded range accepts every string too
 			return DefaultStringType()
 		}
 		return &scStringType{size: rng}
